@@ -2939,3 +2939,96 @@ def gen_symbolic(lib_dir: str, header: str) -> str:
             out += f"  | {pat} => .ok (construct {term} cls false)\n"
     out += "\nend Dltype.Gen\n"
     return out
+
+
+# =====================================================================================================================
+# the decoration-time part of `dltyped` (`_inner_dltyped` up to the definition of the wrapper)  ->  Generated/Decorate.lean
+# =====================================================================================================================
+
+DECOR_ATOMS = {
+    "_dependency_utilities.is_torch_scripting()": "scripting",
+    "enabled": "enabled",
+    "scope_provider == 'self'": "selfProvider",
+    "is_method": "isMethod",
+    # hints that cannot be resolved at decoration time (NameError -> None) are the `fwd` call style of the harness: outside this definition
+    "dltype_hints is not None": "true",
+    "all((all((vv is None for vv in v)) for v in dltype_hints.values()))": "(hints.all (fun h => h.anns.all Option.isNone))",
+}
+IS_METHOD_SRC = "is_method = bool('self' in signature.parameters or 'cls' in signature.parameters) if signature else True"
+GET_HINTS_SRC = [
+    "if existing_hints is not None:\n    return existing_hints",
+    "try:\n    return {name: DLTypeAnnotation.from_hint(hint, name) for name, hint in get_type_hints(func, include_extras=True).items()}\nexcept NameError:\n    return None",
+]
+
+
+def gen_decorate(lib_dir: str, header: str) -> str:
+    with open(os.path.join(lib_dir, "_core.py")) as fh:
+        mod = ast.parse(fh.read(), filename="_core.py")
+    inner = _inner_function(mod, "dltyped", "_inner_dltyped")
+    helper = next((n for n in mod.body if isinstance(n, ast.FunctionDef) and n.name == "_maybe_get_type_hints"), None)
+    if helper is None or [_src(s) for s in _strip(helper.body)] != GET_HINTS_SRC:
+        raise TErr("_maybe_get_type_hints: " + (" ; ".join(_src(s)[:80] for s in _strip(helper.body)) if helper else "not found"))
+
+    def cond(e) -> str:
+        if isinstance(e, ast.BoolOp):
+            return "(" + (" && " if isinstance(e.op, ast.And) else " || ").join(cond(v) for v in e.values) + ")"
+        if isinstance(e, ast.UnaryOp) and isinstance(e.op, ast.Not):
+            return f"(!{cond(e.operand)})"
+        t = DECOR_ATOMS.get(_src(e))
+        if t is None:
+            raise TErr(f"_inner_dltyped: condition `{_src(e)[:100]}`")
+        return t
+
+    lines = []
+    have_hints = False
+    done = False
+    for s in _strip(inner.body):
+        src = _src(s)
+        if done:
+            raise TErr(f"_inner_dltyped: statement after `return wrapper`: `{src[:80]}`")
+        if isinstance(s, ast.If) and not s.orelse:
+            body = [x for x in s.body if not (isinstance(x, ast.Expr) and isinstance(x.value, ast.Call) and _src(x.value.func) in ("_logger.warning", "_logger.debug", "warnings.warn"))]
+            body = [x for x in body if not (isinstance(x, ast.Assign) and isinstance(x.value, (ast.Constant, ast.JoinedStr)))]
+            if len(body) == 1 and isinstance(body[0], ast.Return) and _src(body[0].value) == "func":
+                c = cond(s.test)
+                if "hints" in c and not have_hints:
+                    raise TErr("_inner_dltyped: the hints are tested before they are looked up")
+                lines.append(f"if {c} then .identity else")
+                continue
+            if len(body) == 1 and isinstance(body[0], ast.Raise) and _src(body[0].exc).startswith("TypeError"):
+                lines.append(f"if {cond(s.test)} then .error .typeError else")
+                continue
+            raise TErr(f"_inner_dltyped: branch `{src[:120]}`")
+        if src == "signature = _maybe_get_signature(None, func)" or src == "return_key = 'return'":
+            continue
+        if src == IS_METHOD_SRC:
+            continue
+        if src.startswith("is_method ="):
+            raise TErr(f"_inner_dltyped: `{src[:160]}`")
+        if src == "dltype_hints = _maybe_get_type_hints(None, func)":
+            lines.append("match hintsOf params with\n  | .error e => .error e\n  | .ok ps =>\n  match (match ret with | none => Except.ok none | some h => (fromHint h false).map some) with\n  | .error e => .error e\n  | .ok r =>\n"
+                         "  let hints : List HintAnns := ps.map Prod.snd ++ (match r with | some x => [x] | none => [])")
+            have_hints = True
+            continue
+        if isinstance(s, ast.FunctionDef) and s.name == "wrapper":
+            if sorted(_src(d) for d in s.decorator_list) != ["_dependency_utilities.torch_jit_unused", "wraps(func)"]:
+                raise TErr("wrapper: decorators " + ", ".join(_src(d) for d in s.decorator_list))
+            continue
+        if src == "return wrapper":
+            if not have_hints:
+                raise TErr("_inner_dltyped: the wrapper is returned without the hints having been looked up")
+            lines.append(".wrapped { params := ps, ret := r }")
+            done = True
+            continue
+        raise TErr(f"_inner_dltyped: statement `{src[:120]}`")
+    if not done:
+        raise TErr("_inner_dltyped: no `return wrapper`")
+    out = header
+    out += "import DltypeModel.Entry\nset_option linter.unusedVariables false\nnamespace Dltype.Gen\nopen Dltype\n\n"
+    out += ("/-- `dltyped(scope_provider, enabled=…)(func)`: everything `_inner_dltyped` does before it defines the wrapper, in order.\n"
+            "    `scripting` = `torch.jit.is_scripting()`, `selfProvider` = the string \"self\" was given, `isMethod` = the signature has a parameter\n"
+            "    called `self` or `cls` (or is unknown); the hints are `_maybe_get_type_hints` = `from_hint` of every annotation (its TypeError propagates) -/\n")
+    out += "def decorate (scripting enabled selfProvider isMethod : Bool) (params : List (Name × Hint)) (ret : Option Hint) : Decorated :=\n"
+    out += "".join("  " + l + "\n" for l in lines)
+    out += "\nend Dltype.Gen\n"
+    return out
